@@ -406,4 +406,9 @@ def supported(md, cfgname):
     for path, m in walk(md["root"]):
         if base == "back11" and m["irows"]:
             return False      # back11: a machine's own internal_transition_table does not compile (Event& vs const Event)
+    if base == "back_fct":
+        ms = list(walk(md["root"]))
+        has_compl = any(r["trig"] == "none" for _, m in ms for r in all_rows(m))
+        if has_compl and any(m["irows"] for _, m in ms):
+            return False      # back favor_compile_time: completion event + a machine's own internal table does not compile
     return True
